@@ -192,6 +192,7 @@ def scan(src):
         lo, hi = f["tok_body"] + 1, f["tok_end"]
         loop_k = 0
         assert_k = 0
+        closure_k = 0
         call_k = {}
         j = lo
         while j < hi:
@@ -232,6 +233,27 @@ def scan(src):
                             obs.append(_ob(fid, "loop_ensures#L%d.%d" % (loop_k, k), cl, L, src))
                 loop_k += 1
                 j = m  # continue scanning inside the loop body
+                continue
+            if x.kind == "ident" and x.text == "ensures" and toks[j - 1].text == ")":
+                # closure postcondition:  |args| -> (c_: T) ensures CLAUSES {
+                d = 0
+                m = j + 1
+                while m < hi:
+                    y = toks[m]
+                    if y.kind == "punct":
+                        if y.text in ("(", "["):
+                            d += 1
+                        elif y.text in (")", "]"):
+                            d -= 1
+                        elif y.text == "{" and d == 0:
+                            if toks[m - 1].text == "," or _looks_like_body(toks, m):
+                                break
+                            m = match_close(toks, m)
+                    m += 1
+                for cl in _split_clauses(toks, j + 1, m):
+                    obs.append(_ob(fid, "closure_ensures#%d" % closure_k, cl, L, src))
+                    closure_k += 1
+                j = m
                 continue
             if x.kind == "ident" and x.text == "assert" and toks[j + 1].text in ("(", "forall"):
                 if toks[j + 1].text == "(":
